@@ -352,6 +352,10 @@ class PathTaint:
                 else:
                     self.alias[id(e.ret)] = ((), src.child(pay))
                 continue
+            if re.search(r"oneshot::Sender<.*>::send$|oneshot::Sender::send$", e.callee) and len(e.rargs or []) == 2 and isinstance(e.ret, Sym):
+                # tokio oneshot: send(v) gives the value back unchanged in Err when the receiver is gone
+                self.alias[id(e.ret)] = ((("v", "Err", 0),), e.rargs[1])
+                continue
             args = list(e.rargs or []) + [a for a in (e.args or []) if a not in (e.rargs or [])]
             lab = None
             for a in args:
